@@ -121,7 +121,10 @@ static int upipe_row_join_set_flow_def(struct upipe *upipe,
         return UBASE_ERR_INVALID;
     UBASE_RETURN(uref_flow_match_def(flow_def, "pic."))
 
-    upipe_row_join_require_ubuf_mgr(upipe, flow_def);
+    /* the request keeps the flow format: give it a copy of our own */
+    struct uref *flow_format = uref_dup(flow_def);
+    UBASE_ALLOC_RETURN(flow_format);
+    upipe_row_join_require_ubuf_mgr(upipe, flow_format);
 
     UBASE_RETURN(uref_pic_flow_get_hsize(flow_def, &ctx->output_width));
     UBASE_RETURN(uref_pic_flow_get_vsize(flow_def, &ctx->output_height));
